@@ -33,6 +33,11 @@ const NARROW: [char; 8] = ['a', 'b', 'c', 'x', '|', '.', 'é', 'Ж'];
 const WIDE: [char; 3] = ['世', '界', '😀'];
 const ZERO: [char; 2] = ['\u{0301}', '\u{200b}'];
 
+/// characters whose width the table below knows
+fn known_char(c: char) -> bool {
+    NARROW.contains(&c) || WIDE.contains(&c) || ZERO.contains(&c) || (c as u32) < 0x80
+}
+
 fn width_of(c: char) -> usize {
     if WIDE.contains(&c) {
         2
@@ -605,6 +610,9 @@ fn nowrap_kept(items: &[K], glyphs: bool, ppc: (usize, usize), w: usize) -> Vec<
 // ---------------------------------------------------------------------------------------------
 struct Ctx {
     out: Out,
+    /// failures of the case being evaluated (reported after shrinking)
+    pending: Vec<(String, Case, Value, Value)>,
+    out_dir: std::path::PathBuf,
 }
 
 fn pos_tok(p: Option<Position>) -> String {
@@ -642,7 +650,73 @@ fn build_text(case: &Case) -> Text {
 
 impl Ctx {
     fn fail(&mut self, what: &str, case: &Case, expected: Value, got: Value) {
-        self.out.fail(what, case.to_json(), expected, got);
+        self.pending.push((what.to_string(), case.clone(), expected, got));
+    }
+
+    /// evaluate a case; a failing cell stream is shrunk (cells dropped, fallback strings shortened, faces
+    /// removed, the view re-chosen for texts) as long as the same failure shows, then reported
+    fn run(&mut self, case: &Case, scratch: &mut Option<Box<Ctx>>) {
+        self.eval(case);
+        if self.pending.is_empty() {
+            return;
+        }
+        let pending = std::mem::take(&mut self.pending);
+        let (what, c0, exp, got) = pending[0].clone();
+        let mut best = (c0, exp, got);
+        if matches!(best.0.op.as_str(), "layout" | "tlayout" | "put" | "text" | "str") {
+            let sc = scratch.get_or_insert_with(|| {
+                let dir = self.out_dir.join("shrink");
+                Box::new(Ctx { out: Out::new(&dir), pending: vec![], out_dir: dir })
+            });
+            let mut g = Gen { rng: Rng::new(7), pal: vec![0xff0000ff] };
+            let mut progress = true;
+            let mut budget = 400;
+            while progress && budget > 0 {
+                progress = false;
+                let mut cands: Vec<Case> = Vec::new();
+                for i in 0..best.0.cells.len() {
+                    let mut c = best.0.clone();
+                    c.cells.remove(i);
+                    cands.push(c);
+                }
+                for i in 0..best.0.cells.len() {
+                    if let K::Gl(h, w, fb) = &best.0.cells[i].k {
+                        if !fb.is_empty() {
+                            let mut c = best.0.clone();
+                            let mut fb2: Vec<char> = fb.chars().collect();
+                            fb2.pop();
+                            c.cells[i].k = K::Gl(*h, *w, fb2.into_iter().collect());
+                            cands.push(c);
+                        }
+                    }
+                    if best.0.cells[i].f != F0 {
+                        let mut c = best.0.clone();
+                        c.cells[i].f = F0;
+                        cands.push(c);
+                    }
+                }
+                for c in cands {
+                    budget -= 1;
+                    if budget == 0 {
+                        break;
+                    }
+                    let c = if matches!(c.op.as_str(), "text" | "str") { match place_text(&mut g, c) { Some(c) => c, None => continue } } else { c };
+                    sc.pending.clear();
+                    sc.eval(&c);
+                    if let Some(f) = sc.pending.iter().find(|f| f.0 == what) {
+                        best = (f.1.clone(), f.2.clone(), f.3.clone());
+                        progress = true;
+                        break;
+                    }
+                }
+            }
+        }
+        self.out.fail(&what, best.0.to_json(), best.1, best.2);
+        for (w, c, e, g) in pending.into_iter().skip(1) {
+            if w != what {
+                self.out.fail(&w, c.to_json(), e, g);
+            }
+        }
     }
 
     fn eval(&mut self, case: &Case) {
@@ -1227,7 +1301,17 @@ impl Gen {
         out.push(vec![n / 2, 0, n - n / 2]);
         out
     }
+    /// a stream of known characters; `malformed`: damaged somewhere (streams in which the damage happens to
+    /// spell a character outside of the width table are not used)
     fn utf8_stream(&mut self, n: usize, malformed: bool) -> Vec<u8> {
+        loop {
+            let s = self.utf8_stream_once(n, malformed);
+            if String::from_utf8_lossy(&s).chars().all(|c| c == '\u{fffd}' || known_char(c)) {
+                return s;
+            }
+        }
+    }
+    fn utf8_stream_once(&mut self, n: usize, malformed: bool) -> Vec<u8> {
         let mut s = Vec::new();
         for _ in 0..n {
             let c = match self.rng.below(12) {
@@ -1372,6 +1456,26 @@ fn corners(g: &mut Gen) -> Vec<Case> {
             }
         }
     }
+    // views without cells (a selector beyond the canvas collapses the view), a single column, a single row
+    for (h, w, steps) in [
+        (2usize, 2usize, vec![Step { op: VOp::V(5, 6, 0, 1), kind: 0 }]),
+        (2, 3, vec![Step { op: VOp::V(0, 2, 3, 9), kind: 1 }, Step { op: VOp::T, kind: 0 }]),
+        (4, 3, vec![Step { op: VOp::V(0, 4, 1, 2), kind: 3 }]),
+        (3, 6, vec![Step { op: VOp::V(1, 2, 0, 6), kind: 4 }]),
+    ] {
+        for cells in [text_of("ab\tc\n世d"), vec![ch('\t'), gl(2, 2, "xy"), ch('\n'), ch('a')]] {
+            for wraps in [true, false] {
+                let mut c = Case::blank("put");
+                c.cells = cells.clone();
+                c.wraps = wraps;
+                c.h = h;
+                c.w = w;
+                c.steps = steps.clone();
+                c.wface = F { fg: Some(g.pal[1]), bg: None, attrs: 0 };
+                v.push(c);
+            }
+        }
+    }
     // every partition of short streams: split inside a character, inside an escape sequence
     for (bytes, mode) in [
         ("a世b".as_bytes().to_vec(), "w"),
@@ -1429,10 +1533,11 @@ fn main() {
     if std::env::var("C09_LOUD").is_err() {
         verif_harness::silence_panics();
     }
-    let mut ctx = Ctx { out };
+    let mut ctx = Ctx { out, pending: vec![], out_dir: cfg.outdir.clone() };
+    let mut scratch: Option<Box<Ctx>> = None;
     if let Some(replay) = &cfg.replay {
         if let Some(case) = Case::from_json(&replay["failure"]["input"]) {
-            ctx.eval(&case);
+            ctx.run(&case, &mut scratch);
             ctx.out.finish("replay of one recorded case");
             return;
         }
@@ -1444,9 +1549,9 @@ fn main() {
     }
     let mut g = Gen { rng: Rng::new(cfg.seed), pal };
     for c in corners(&mut g) {
-        ctx.eval(&c);
+        ctx.run(&c, &mut scratch);
     }
-    let scale: usize = if cfg.thorough { 40 } else { 1 };
+    let scale: usize = if cfg.thorough { 200 } else { 5 };
 
     // Cell::layout directly
     for i in 0..400 * scale {
@@ -1468,7 +1573,7 @@ fn main() {
             c.op = "tlayout".into();
             c.max_h = *g.rng.pick(&[usize::MAX, 1000, 3]);
         }
-        ctx.eval(&c);
+        ctx.run(&c, &mut scratch);
     }
 
     // writer over views
@@ -1492,7 +1597,7 @@ fn main() {
         if i % 300 == 0 {
             ctx.out.sample(c.to_json());
         }
-        ctx.eval(&c);
+        ctx.run(&c, &mut scratch);
     }
 
     // byte streams through the three writers, under partitions
@@ -1516,7 +1621,7 @@ fn main() {
         if i % 100 == 0 {
             ctx.out.sample(c.to_json());
         }
-        ctx.eval(&c);
+        ctx.run(&c, &mut scratch);
     }
 
     // texts laid out under widths 1..12 and rendered into exactly the reported size
@@ -1537,7 +1642,7 @@ fn main() {
             if i % 500 == 0 {
                 ctx.out.sample(c.to_json());
             }
-            ctx.eval(&c);
+            ctx.run(&c, &mut scratch);
         }
     }
 
@@ -1565,7 +1670,7 @@ fn main() {
                         c.mode = "x".into();
                         c.bytes = bytes.clone();
                         c.parts = vec![parts[0].clone(), part.clone()];
-                        ctx.fail("cells collected by a Text depend on how the written bytes were split across write calls", &c, json!(f.len()), json!(cells.len()));
+                        ctx.out.fail("cells collected by a Text depend on how the written bytes were split across write calls", c.to_json(), json!(f.len()), json!(cells.len()));
                         break;
                     }
                 }
